@@ -59,6 +59,7 @@ type Drawing struct {
 // DrawItem is one drawing command.
 type DrawItem struct {
 	Kind   string    `json:"kind"` // path | text
+	Paint  int       `json:"paint,omitempty"` // 0 colour, 1 linear gradient, 2 radial gradient, 3 line hatch, 4 cross hatch
 	Shape  *Shape    `json:"shape,omitempty"`
 	Fill   [4]uint8  `json:"fill"`
 	Stroke [4]uint8  `json:"stroke"`
